@@ -20,6 +20,12 @@ ASSUMPTIONS = ["C01-C03 for 'delivered intact and in order'"]
 BW = "quill::detail::BackendWorker::"
 
 
+# MacroMetadata::Event: which kinds carry a user's statement (made by the LOG_ macros; the backend writes them to the sinks) and which are
+# control events made by the library itself (they have no text, nothing of the user's is lost when one is refused)
+STATEMENT_KINDS = ("Log", "LogWithRuntimeMetadata")
+CONTROL_KINDS = ("InitBacktrace", "FlushBacktrace", "Flush", "LoggerRemovalRequest")
+
+
 def run(ctx):
     configs = ["A"] if ctx.tier == "quick" else ["A", "B"]
     for cfg in configs:
@@ -102,32 +108,35 @@ def r1_r2(ctx, facts, cfg):
         inc = cpos(f, r"::increment_failure_counter$")
         cnt_i = g.count_on_paths([g.entry_node], trues + falses, inc)
         ok_true = all(cnt_i[t] == (0, 0) for t in trues)
-        logbr = []
-        for bid, b in g.blocks.items():
-            c = g.term_cond(bid)
-            if c is None:
-                continue
-            nc = norm_cmp(c)
-            if nc and nc[0] in ("==", "!=") and any(is_call(x, r"MacroMetadata::event$") for x in walk(c)) and \
-                    any(x["k"] == "DeclRefExpr" and x.get("name") == "quill::MacroMetadata::Log" for x in walk(c)):
-                core, neg = core_and_neg(c)
-                logbr.append((bid, "T" if (nc[0] == "==") else "F"))
-        ok_log = bool(logbr) and bool(inc)
-        for (bid, lab) in logbr:
-            t = tnode(g, bid)
-            c_log = g.count_on_paths([t], falses, inc)
-            # via the Log outcome exactly one, via the other outcome none
-            via_log = g.reach([t], avoid_edges=[(bid, other(lab))])
-            via_other = g.reach([t], avoid_edges=[(bid, lab)])
-            if any(p in via_other for p in inc):
+        # which kinds of event count: decided per enumerator of MacroMetadata::Event by reachability under the assumption 'event() yields
+        # that enumerator' (comparisons, || chains and switches alike). A kind that carries a user's statement must be counted on every
+        # dropped path; a control event (backtrace set-up / flush requests / logger removal) never.
+        from rules.common import inconsistent_edges
+        en_ = facts.enum("quill::MacroMetadata::Event", cfg)
+        if not en_:
+            raise AnalysisBroken("MacroMetadata::Event not found")
+        names = [n for (n, _v) in en_["enumerators"]]
+        unknown = sorted(set(names) - set(STATEMENT_KINDS) - set(CONTROL_KINDS))
+        if unknown:
+            raise AnalysisBroken("MacroMetadata::Event has enumerators the drop-count table does not know: %s — statement or control event?" % unknown)
+        after_null = [y for (b, l) in nul for (y, l2) in g.succ.get(tnode(g, b), ()) if l2 == l]
+        ok_log = bool(inc) and bool(after_null)
+        verdict = {}
+        for e in names:
+            avoid = inconsistent_edges(g, r"MacroMetadata::event$", names, e)
+            counted = g.exists_path(after_null, inc, avoid_edges=avoid) or any(p in after_null for p in inc)
+            uncounted_drop = g.exists_path(after_null, falses, avoid_nodes=inc, avoid_edges=avoid)
+            verdict[e] = "counted" if (counted and not uncounted_drop) else ("never" if not counted else "sometimes")
+            if e in STATEMENT_KINDS and verdict[e] != "counted":
                 ok_log = False
-            if not all(any(p in via_log for p in inc) for _ in [0]):
+            if e in CONTROL_KINDS and verdict[e] != "never":
                 ok_log = False
+        logbr = verdict
         mx = max((cnt_i[x][1] or 0) for x in falses)
         ctx.ob("C08.R2", site + ":count-iff-dropped-log", ok_true and ok_log and mx <= 1,
-               "the failure counter is incremented once for a dropped ordinary Log statement, not for control events, never on a path "
-               "that delivers (true paths: %s, max per dropped path: %d, event test present: %s)" %
-               (sorted(set(cnt_i[t] for t in trues)), mx, bool(logbr)), fn=f)
+               "the failure counter is incremented once for a dropped statement of either statement kind (Log, LogWithRuntimeMetadata), not "
+               "for control events, never on a path that delivers (true paths: %s, max per dropped path: %d, per event kind: %s)" %
+               (sorted(set(cnt_i[t] for t in trues)), mx, logbr), fn=f)
     ctx.floor("C08.R1", "dropping log_statement instantiations", ndrop, 8)
 
 
